@@ -110,6 +110,38 @@ where
         Ok(Verdict::Reject(e)) => rep.violation(&format!("low-degree-rejected-after-serialization|{}", e.split(':').next().unwrap_or("?")), json!({"ctx": ctx, "error": e})),
         Err(p) => rep.violation(&format!("{}|fri-verifier-after-serialization", p.sig()), ctx.clone()),
     }
+    // one prover instance reused for a second polynomial (build_proof leaves the prover ready
+    // for the next request): the second proof must verify as well
+    if case % 4 == 0 {
+        use winter_crypto::{DefaultRandomCoin, MerkleTree};
+        use winter_fri::{DefaultProverChannel, FriProver};
+        let coeffs2 = frih::random_poly::<E>(rng, bound);
+        let evals2 = frih::evaluate(&coeffs2, geo.domain());
+        let second = vcommon::guard(|| {
+            let mut prover = FriProver::<E, DefaultProverChannel<E, H, DefaultRandomCoin<H>>, H, MerkleTree<H>>::new(geo.options());
+            let mut last = None;
+            for ev in [run.evaluations.clone(), evals2.clone()] {
+                let mut channel = DefaultProverChannel::<E, H, DefaultRandomCoin<H>>::new(geo.domain(), run.positions.len().max(1));
+                prover.build_layers(&mut channel, ev.clone());
+                let proof = prover.build_proof(&run.positions);
+                last = Some((proof, channel.layer_commitments().to_vec(), ev));
+            }
+            last.unwrap()
+        });
+        rep.evals(1);
+        rep.count("prover_reused_for_second_proof");
+        match second {
+            Ok((proof, commitments, ev)) => {
+                let r2 = frih::Run::<E, H> { geo: geo.clone(), evaluations: ev, positions: run.positions.clone(), commitments, proof_bytes: proof.to_bytes(), proof };
+                match frih::verify_object(&r2) {
+                    Ok(Verdict::Accept) => {},
+                    Ok(Verdict::Reject(e)) => rep.violation(&format!("low-degree-rejected|reused-prover|{}", e.split(':').next().unwrap_or("?")), json!({"ctx": ctx, "error": e})),
+                    Err(p) => rep.violation(&format!("{}|fri-verifier-reused-prover", p.sig()), ctx.clone()),
+                }
+            },
+            Err(p) => rep.violation(&format!("{}|fri-prover-reused", p.sig()), ctx.clone()),
+        }
+    }
     if rep.samples.len() < rep.max_samples {
         rep.sample(json!({"ctx": ctx, "proof_bytes": run.proof_bytes.len(), "layers": geo.num_layers(), "remainder_coefficients": geo.rem_len()}));
     }
@@ -148,7 +180,7 @@ where
 
 pub fn run(args: &Args) {
     let mut rep = Report::new("C08", "c08",
-        "random realisable FRI geometries (degree bound + 1 = 2^1..2^10 (thorough 2^13), blowup 2..128, folding 2/4/8/16, remainder degree 2^k-1 <= 255, domain <= 2^17) x 12 field/extension/hasher instantiations x polynomial degree {0, 1, bound/2, exactly bound, random} x query positions (drawn 1..255 with random nonce, one position repeated, positions folding onto each other, sorted / reversed multisets, edges): prover + verifier on the proof object, FriProof round trip (equal, byte-identical), verifier on the decoded proof; distinct = (instantiation, geometry, degree class, position mode)");
+        "random realisable FRI geometries (degree bound + 1 = 2^1..2^10 (thorough 2^13), blowup 2..128, folding 2/4/8/16, remainder degree 2^k-1 <= 255, domain <= 2^17) x 12 field/extension/hasher instantiations x polynomial degree {0, 1, bound/2, exactly bound, random} x query positions (drawn 1..255 with random nonce, one position repeated, positions folding onto each other, sorted / reversed multisets, edges): prover + verifier on the proof object, FriProof round trip (equal, byte-identical), verifier on the decoded proof; every 4th case: the same FriProver instance reused for a second polynomial; distinct = (instantiation, geometry, degree class, position mode)");
     let seed = args.seed();
     let max_log_d = args.u64("maxlogd", if args.thorough() { 13 } else { 10 }) as u32;
     let mut w = vcommon::Worker::new(args, 1500);
